@@ -64,6 +64,15 @@ func (c *cliEnv) run(timeout time.Duration, args ...string) cliResult {
 	return r
 }
 
+// repoDir: the repository the default binary is built from (/repo; a scratch worktree when a seeded
+// change is tested in isolation with seedtest.sh).
+func repoDir() string {
+	if d := os.Getenv("VERIF_REPO"); d != "" {
+		return d
+	}
+	return "/repo"
+}
+
 func goEnv() []string {
 	return append(os.Environ(), "GOFLAGS=-mod=mod", "GOPROXY=off", "GOSUMDB=off", "GOTOOLCHAIN=local")
 }
@@ -235,7 +244,7 @@ func ReplayCmd(path string) (bool, string, error) {
 	}
 	defer os.RemoveAll(scratch)
 	bin := filepath.Join(scratch, "fundraisingd")
-	if err := buildDefaultBinary("/repo", bin, ""); err != nil {
+	if err := buildDefaultBinary(repoDir(), bin, ""); err != nil {
 		return false, "", err
 	}
 	c := &cliEnv{bin: bin, home: filepath.Join(scratch, "home"), scratch: scratch}
